@@ -260,7 +260,7 @@ class Ctx:
         self.rng = random.Random(f"{prop}:{seed}")
         self.t0 = time.time()
         self.t_begin = self.t0
-        self.budget_s = float(os.environ.get("VERIF_BUDGET_S", 0)) or (170 if tier == "quick" else 1500)
+        self.budget_s = float(os.environ.get("VERIF_BUDGET_S", 0)) or (240 if tier == "quick" else 1500)
         # proof side
         self.obligations: list[dict] = []  # {name, kind, ok, detail}
         # correspondence / exploration side
